@@ -59,7 +59,7 @@ def check(case: Dict[str, Any]) -> Dict[str, Any]:
         raise mine[0]
     s = run.stats
     classes = [k for k in ('refresh', 'new', 'goodbye_cached', 'flush_marked', 'repeat_in_dgram', 'multi_kind_dgram',
-                           'boundary_flush', 'listener_mutation', 'listener_readded', 'exact_1000') if s.get(k)]
+                           'boundary_flush', 'listener_mutation', 'listener_readded', 'exact_1000', 'flush_over_expired') if s.get(k)]
     if case['listeners'] > 1:
         classes.append('multi-listener')
     return {'nontrivial': bool(s['multi_kind_dgram'] or s['boundary_flush']), 'classes': classes,
